@@ -101,7 +101,7 @@ class InlineIndex:
         else:
             n = self.sites.get(g, 0)
             body = self.F.body_of(g)
-            if n == 0 or n > MAX_SITES or len(body.blocks) > MAX_BLOCKS:
+            if n == 0 or n > MAX_SITES or len(body.blocks) > (MAX_BLOCKS if n > 1 else 4 * MAX_BLOCKS):    # a helper with one call site is moved, not duplicated
                 ok = False
             else:
                 # not recursive through statically resolved calls (only those are spliced; a cycle that passes a trait
